@@ -39,7 +39,15 @@ THEOREMS = [
     "Ural.Props.C01.canonParts_wf",
     "Ural.Props.C01.canonicalize_accepts_iff",
     "Ural.Props.C01.canonicalize_reparse",
+    "Ural.Props.C01.canonicalize_reparse_of_some",
     "Ural.Props.C01.canonicalize_same_resource",
+    "Ural.UrlRoundTrip.urlsplit_normal",
+    "Ural.UrlRoundTrip.accessors_printed",
+    "Ural.CanonRoundTrip.printSplit_normal",
+    "Ural.CanonRoundTrip.parseUrl_printed",
+    "Ural.CanonRoundTrip.bracket_text",
+    "Ural.BracketHost.bracketedHostOk_canon",
+    "Ural.BracketHost.hbr_holds",
     "Ural.Props.C01.defaultProtocolOk_https",
     "Ural.CanonRoundTrip.punyClean_id",
     "Ural.CanonRoundTrip.normpath_abs_shape",
@@ -62,7 +70,7 @@ RULE = (
     "SplitResult accessors (parse_url) against CPython on the raw string, on the cleaned string and on "
     "the real output; the whole-string model canonicalizeUrl (cleaning -> parseUrl -> canonParts -> "
     "urlunsplit, ValueError included) against the real canonicalize_url; both urlunsplit models against "
-    "the real one. Extra cases: the netloc torture generator (multiple '@', ':' in userinfo, empty / "
+    "the real one (canon_parts / canonicalize_whole answer ValueError where canonicalize_url rejects the userinfo). Extra cases: the netloc torture generator (multiple '@', ':' in userinfo, empty / "
     "leading-zero / too large / non-digit / unicode-digit ports, balanced / unbalanced / IPvFuture / "
     "zone-id brackets, brackets in userinfo, control characters, tabs and newlines inside, leading "
     "spaces, scheme look-alikes, scheme-less strings with a later ':', '//' forms, '?' / '#' orders, "
@@ -78,7 +86,7 @@ TRUSTED = [
     "Lean 4 kernel; axioms audited",
     "urlsplit and the SplitResult accessors (.username .password .hostname .port) are MODELLED (Py/UrlSplit.lean, Py/UrlAccessors.lean) and compared with CPython on every run on the raw, cleaned and printed strings of every case and on the netloc torture strings; the old ops still ship the real parser's components to canonParts, the new op canonicalize_whole lets the model parse by itself, so both ties run; urlunsplit is modelled twice (UrlParts.urlunsplit, Py.urlunsplit20), proved equal (urlunsplit_models_agree) and both compared with the real one",
     "outside the parser model (withheld from the parse streams, counted): str.lower on non-ASCII cased characters of the host, _checknetloc (NFKC), IPv4 tail inside an IPv6 literal; _check_bracketed_host is otherwise the approximation bracketedHostOk",
-    "PunyClean (the idna decoder brings in no URL delimiter, '%', control or white-space character that its input did not hold) is assumed by the round-trip theorems and tested on the real codec for every label decoded in a run, next to PunyLaws",
+    "PunyClean (the idna decoder brings in no URL delimiter, '%', control or white-space character that its input did not hold, and decodes no label to the empty string) is assumed by the round-trip theorems and tested on the real codec for every label decoded in a run, next to PunyLaws",
     "attempt_to_decode_idna (CPython idna codec) is the abstract parameter `puny`; the driver uses a per-case table computed by the real codec",
     "hand-written model Model/Canonicalize.lean + Model/UrlParts.lean + Model/Quote.lean, tied to the code by differential execution",
     "str.lower / str.strip on non-ASCII characters outside the model alphabet (DESIGN §4) are not modelled",
@@ -92,10 +100,11 @@ UNPROVED = (
     "parsed input whose path is empty or starts with '/' -- hypothesis absPath, evaluated by the model on the "
     "path of every parsed case, `path_hyp` line; it is needed: normpath cannot pop the first segment of a "
     "relative path, witness in Props/C01.lean). Delimiter clause on the OUTPUT STRING (the parser is inside "
-    "the model): canonicalize_reparse is full for netlocs without brackets; with brackets it is "
-    "canonicalize_reparse_partial (hypotheses: no bracket in userinfo / inside the host text, and the "
-    "canonical host, when it holds ':', still passes the bracket check) - outside them the statement is "
-    "false for the implementation (reparse_fails_outside, KF-C01-1, KF-C01-2). The default protocol must be "
+    "the model): canonicalize_reparse is FULL - for every string canonicalize_url accepts (canonicalize_accepts_iff: "
+    "the cleaned string parses and its userinfo holds no raw bracket, both decidable; everything else raises "
+    "ValueError) the output parses and its parse is the computed components, whatever the netloc holds "
+    "(IPv6 / IPvFuture literals, zone ids, junk around the brackets: bracket_text, bracketedHostOk_canon); no "
+    "bracket hypothesis is left (the former NoOddBracket / hbr region were KF-C01-1, KF-C01-2, now fixed). The default protocol must be "
     "scheme-shaped (DefaultProtocolOk), otherwise the cleaned string has no scheme. NOT theorems: that the "
     "Lean parser model IS CPython's urlsplit + accessors (compared on every run on raw / cleaned / printed "
     "strings and on the netloc torture strings), and the IDNA codec (abstract, PunyLaws + PunyClean, tested)"
